@@ -80,15 +80,14 @@ class Monitor(object):
         -------
 
         """
-        if self.simulation.instrument.events:
-            self.events = pd.concat([self.events,
-                                    pd.DataFrame(self.simulation.instrument.events)])
-
-        if self.simulation.scheduler.events:
-            self.events = pd.concat([self.events,
-                                    pd.DataFrame(self.simulation.scheduler.events)])
-        if self.simulation.buffer.events:
-            self.events = pd.concat([self.events,
-                                    pd.DataFrame(self.simulation.buffer.events)])
+        # The monitor consumes the actors' pending events: each list is
+        # emptied once it has been copied, so that an event is recorded
+        # exactly once, whichever process appended it and whenever.
+        for actor in (self.simulation.instrument, self.simulation.scheduler,
+                      self.simulation.buffer):
+            if actor.events:
+                self.events = pd.concat([self.events,
+                                         pd.DataFrame(actor.events)])
+                actor.events = []
 
         self.events = self.events.infer_objects()
